@@ -592,6 +592,7 @@ func CheckC16(run *Run) {
 		}
 		run.Results = append(run.Results, cr)
 	}
+	CheckC16More(run) // c16_more.go: degenerate configs, acyclic DAGs, fan-in
 	run.Extra["plugin_runs"] = len(reqs) * len(c16Variants)
 	run.Extra["answers_by_variant"] = answers
 	run.Extra["bounds"] = "each plugin process: 10 s wall clock, 1 GiB address space"
